@@ -36,6 +36,10 @@ type Spec struct {
 	Post func(e *Env, s *Spec, agg *Agg, cov map[string]interface{}) error
 	// RequireProbes lists counters that must be non-zero in a run without violations (else exit 2).
 	RequireProbes []string
+	// ProbesNotApplicable names required probes that cannot fire on this tree for a reason that is
+	// not a gap of the workload (e.g. per-write-site probes when the renderer buffers its output
+	// and makes a single write call).
+	ProbesNotApplicable func(agg *Agg) []string
 	// ExtraArgs are passed to every worker invocation.
 	ExtraArgs []string
 	// ExtraFn computes further worker arguments that depend on the environment.
@@ -233,8 +237,14 @@ func check(e *Env, s *Spec) (int, error) {
 	}
 	if out.Violations == 0 {
 		// a clean result is believed only if the workload reached what it claims to reach
+		skip := map[string]bool{}
+		if s.ProbesNotApplicable != nil {
+			for _, p := range s.ProbesNotApplicable(agg) {
+				skip[p] = true
+			}
+		}
 		for _, p := range s.RequireProbes {
-			if agg.Counters[p] == 0 {
+			if agg.Counters[p] == 0 && !skip[p] {
 				return 2, troublef("probe %q was never hit (%s tier): the workload or fault mix did not reach what the check claims to cover", p, e.Tier)
 			}
 		}
